@@ -169,6 +169,14 @@ def request(c):
             "num": _pereq(c["num"]), "den": _pereq(c["den"])}
 
 
+def _used(pe):
+    if pe[0] == "poly":
+        return set(v["src"] for _, v in pe[1] if isinstance(v, dict))
+    if pe[0] == "mul":
+        return _used(pe[1]) | _used(pe[2])
+    return _used(pe[1]) | (set([pe[2]["src"]]) if isinstance(pe[2], dict) else set())
+
+
 def _mask(c, row):
     return [None if d["kind"] == "control" else p for d, p in zip(c["srcs"], row)]
 
@@ -198,8 +206,19 @@ def compare(c, io, drv):
                     "output, max over its copies) gives %r" % (io["trace"], tr)))
     if io["final"] != _mask(c, m["final"]):
         out.append(("model", "hub: pulls per source at the end %r, the machine gives %r" % (io["final"], _mask(c, m["final"]))))
-    # the property, stated directly: after k outputs every USED source has been pulled exactly k times
+    # the property, stated directly: after k outputs every source has been pulled exactly k times
     # (a source stored directly in two coefficients: the assumption of the property is broken — 2k)
+    if c["shape"] != "twice":
+        used = _used(c["num"]) | _used(c["den"])
+        for j, row in enumerate(io["trace"]):
+            if any(p is not None and p != (j + 1 if k in used else 0) for k, p in enumerate(row)):
+                out.append(("spec", "hub: after %d outputs the sources have been pulled %r times (every coefficient "
+                            "stream is read exactly once per output sample)" % (j + 1, row)))
+                break
+        for j, row in enumerate(m["trace"]):
+            if any(p not in (0, j + 1) for p in row):      # the statement hub_nested_reads_once_PENDING on this input
+                out.append(("model", "hub: machine row %d is %r, not 0 / %d everywhere" % (j, row, j + 1)))
+                break
     return out
 
 
